@@ -7,7 +7,8 @@ SHAPE-FWD: the 3 x 11 Blend and 2 x 6 Compose dispatchers pass the function / ca
 operator named after the method, with source and backdrop in order.
 """
 from .common import Session, check_ref, check_value, one, impl_methods, atoms_of, apps_of
-from . import alg, sym
+import re
+from . import alg, sym, poly
 from .sym import Struct, Tuple, Opaque, elementwise
 
 EXPLANATION = (
@@ -243,7 +244,51 @@ def run(F, rep, tier="quick", extra=None, only=None):
             problems = _compose_problems(v, op)
             rep.ob("SHAPE-FWD", key, not problems, "; ".join(problems) if problems else "premultiply → PreAlpha::%s(src, dst) → unpremultiply" % op, F.loc(b))
     rep.floor("Compose dispatchers", n_disp, 12)
+    check_blend_inputs(F, rep)
     return {"level": "proof"}
+
+
+def check_blend_inputs(F, rep):
+    """INPUT: `blend_separable` reads `color` as the STRAIGHT colour (argument of the blend function B), `color_pre` as the premultiplied colour
+    and `alpha`; the three constructors of `BlendInput` must fill them accordingly.  The colour type is generic, so the constructors are compared
+    as terms over the uninterpreted `Premultiply::premultiply` / `unpremultiply`."""
+    S = Session(F)
+    U = r"blend::Premultiply::unpremultiply<C>\(mk:PreAlpha\{alpha,color\}\(c\.alpha, c\.color\)\)"
+    P = r"blend::Premultiply::premultiply<C>\(c\.color, c\.alpha\)"
+    EXPECT = {
+        "new_opaque": {"color": r"c", "color_pre": r"c", "alpha": r"(stimulus::Stimulus::max_intensity<.*>|1)"},
+        "from<Alpha>": {"color": r"c\.color", "color_pre": r"proj\.color\(%s\)" % P, "alpha": r"(proj\.alpha\(%s\)|c\.alpha)" % P},
+        "from<PreAlpha>": {"color": r"proj\.0\(%s\)" % U, "color_pre": r"c\.color", "alpha": r"(proj\.1\(%s\)|c\.alpha)" % U},
+    }
+    n = 0
+    for b in F.bodies:
+        im = b.get("_impl")
+        if not im or not im["self_s"].startswith("blend::blend::BlendInput<") or b["name"] not in ("from", "new_opaque"):
+            continue
+        which = b["name"]
+        if which == "from":
+            src = (im.get("trait_args_s") or ["?"])[0]
+            which = "from<PreAlpha>" if src.startswith("blend::pre_alpha::PreAlpha<") else "from<Alpha>" if src.startswith("alpha::alpha::Alpha<") else None
+        if which is None:
+            rep.fail("INPUT", "BlendInput::from<%s>" % src, "unknown constructor of BlendInput: no reference for it", F.loc(b))
+            continue
+        n += 1
+        key = "BlendInput::" + which
+        try:
+            v, _ = S.ev.eval_body(b, S.args(b, ["c"]))
+        except (Opaque, poly.TooBig) as ex:
+            rep.fail("INPUT", key, "uninterpretable: %s" % ex, F.loc(b))
+            continue
+        problems = []
+        if not isinstance(v, Struct):
+            problems.append("not a struct literal on every path: %s" % alg._short(v, 200))
+        else:
+            for f, pat in EXPECT[which].items():
+                got = alg._short(v.fields.get(f), 400) if f in v.fields else "<missing>"
+                if not re.fullmatch(pat, got):
+                    problems.append("%s = %s, expected %s" % (f, got, {"color": "the straight colour", "color_pre": "the premultiplied colour", "alpha": "the alpha"}[f]))
+        rep.ob("INPUT", key, not problems, "; ".join(problems) if problems else alg._short(v, 300), F.loc(b))
+    rep.floor("BlendInput constructors", n, 3)
 
 
 def _find_apps(v, pred, out=None):
